@@ -299,6 +299,24 @@ def api_corners(run):
             run.violation("duplicate reporting unit ids were not rejected with the client error", input=case,
                           impl={"outcome": res.get("raises", "completed")}, expected="ModelClientException", predicate="gate_iff",
                           signature="C14:gate-duplicate", election=e.to_json())
+    # the same id listed once under each of two states (baseline and feed), both copies reporting: still a repeated unit id
+    for pi, ests, feats, params in (("nonparametric", ["turnout"], [], {}), ("gaussian", ["turnout"], [], {}),
+                                    ("bootstrap", ["margin"], ["baseline_normalized_margin"], E.boot_params(B=4))):
+        e = exact_election(rng, 26, n_partial=2, first_state=13)
+        a = e.pre.index[e.pre["postal_code"] == "AA"][0]
+        b = e.pre.index[e.pre["postal_code"] == "BB"][0]
+        ida, idb = e.pre.loc[a, "geographic_unit_fips"], e.pre.loc[b, "geographic_unit_fips"]
+        e.pre.loc[b, ["geographic_unit_fips", "county_fips"]] = [ida, ida]
+        e.cur.loc[e.cur["geographic_unit_fips"] == idb, "geographic_unit_fips"] = ida
+        e.roles.pop(idb, None)
+        res = E.run_client(e, estimands=ests, alphas=[0.7], pi_method=pi, features=feats, params=dict(params))
+        case = {"api": True, "corner": "a reporting unit id listed once under each of two states", "pi_method": pi}
+        run.case(case, True)
+        run.count("corner: duplicate unit")
+        if res.get("raises") != "ModelClientException":
+            run.violation("duplicate reporting unit ids were not rejected with the client error", input=case,
+                          impl={"outcome": res.get("raises", "completed")}, expected="ModelClientException", predicate="gate_iff",
+                          signature="C14:gate-duplicate", election=e.to_json())
     for alpha in (0.8, 0.7):
         need = int(math.ceil(impl_min("nonparametric", alpha)))
         for m in (0, need - 1, need, need + 1):
